@@ -1,0 +1,10 @@
+//go:build verif
+// +build verif
+
+package plumbing
+
+// VerifStripWhitespace exposes the unexported stripWhitespace (read-only; used by the C11 harness to
+// observe what FileDiff.Consume feeds into DiffLinesToRunes).
+func VerifStripWhitespace(str string, ignoreWhitespace bool) string {
+	return stripWhitespace(str, ignoreWhitespace)
+}
